@@ -679,7 +679,12 @@ MathGenSpec == MathGenInit /\ [][MathGenNext]_vars
 
 -----------------------------------------------------------------------------
 (* Clauses in checkable form *)
+(* TLC does not re-evaluate a state invariant on a state whose VIEW value it has
+   already seen, and the exhaustive configs use VIEW = st: clauses that read ev
+   or gh are therefore stated as action properties (evaluated on every
+   transition).  Inv_C09_Identity is for configs without a VIEW only. *)
 Inv_C09_Identity == C09_IdentityState(st, gh)
+Act_C09_IdentityGh == [][C09_IdentityState(st', gh')]_vars
 Act_C09_Identity == [][C09_IdentityStep(st, st')]_vars
 Act_C09_Authority == [][C09_Authority(st, ev', st')]_vars
 Act_C09_Cap == [][C09_Cap(st, ev', st')]_vars
